@@ -31,10 +31,14 @@ Proof. exact moving_max_is_window_max. Qed.
 Theorem C01_MovingMin : forall (p : Z) (xs : list R), (1 <= p)%Z -> Forall (fun x => x <> 0%R) (firstn (Z.to_nat p) xs) ->
   sem (trend_MovingMin_Compute (T:=R) (I:=R) (mk_trend_MovingMin p) (EIn 0)) [xs] = tab (Z.to_nat p - 1) (length xs) (wmin (Z.to_nat p) xs).
 Proof. exact moving_min_is_window_min. Qed.
-(* the non-zero hypothesis matters: MovingMin(3) of [0; 5; 7; 8] is [5; 5], the window minimum is [0; 5] *)
-Theorem C01_MovingMin_zero_refuted : exists (p : Z) (xs : list R), (1 <= p)%Z /\
-  sem (trend_MovingMin_Compute (T:=R) (I:=R) (mk_trend_MovingMin p) (EIn 0)) [xs] <> tab (Z.to_nat p - 1) (length xs) (wmin (Z.to_nat p) xs).
-Proof. exact moving_min_zero_refuted. Qed.
+(* for all inputs: the non-zero hypothesis above was needed by the earlier code (it removed the Shift's fill value 0 from
+   the tree during warm-up, deleting a genuine 0); the code now counts the warm-up steps.  Statements above kept for users. *)
+Theorem C01_MovingMax_all : forall (p : Z) (xs : list R), (1 <= p)%Z ->
+  sem (trend_MovingMax_Compute (T:=R) (I:=R) (mk_trend_MovingMax p) (EIn 0)) [xs] = tab (Z.to_nat p - 1) (length xs) (wmax (Z.to_nat p) xs).
+Proof. exact moving_max_is_window_max_all. Qed.
+Theorem C01_MovingMin_all : forall (p : Z) (xs : list R), (1 <= p)%Z ->
+  sem (trend_MovingMin_Compute (T:=R) (I:=R) (mk_trend_MovingMin p) (EIn 0)) [xs] = tab (Z.to_nat p - 1) (length xs) (wmin (Z.to_nat p) xs).
+Proof. exact moving_min_is_window_min_all. Qed.
 
 Print Assumptions C01_MovingSum.
 Print Assumptions C01_Sma.
@@ -43,4 +47,5 @@ Print Assumptions C01_Rma.
 Print Assumptions C01_Smma.
 Print Assumptions C01_MovingMax.
 Print Assumptions C01_MovingMin.
-Print Assumptions C01_MovingMin_zero_refuted.
+Print Assumptions C01_MovingMax_all.
+Print Assumptions C01_MovingMin_all.
